@@ -1,6 +1,6 @@
 (** non-vacuity for C07: concrete texts meeting the hypotheses of the main theorems *)
 From Coq Require Import List NArith ZArith Bool.
-From ApiFu Require Import Base.Sexp Lex.Utf8 Lex.LexModel Lex.LexSpec Lex.LexRel Lex.LexProgress Lex.LexMode Lex.LexRefine.
+From ApiFu Require Import Base.Sexp Lex.Utf8 Lex.LexModel Lex.LexSpec Lex.LexRel Lex.LexProgress Lex.LexMode Lex.LexRefine Lex.LexErrors Lex.LexApi Lex.LexApiSpec Lex.LexPrefixSpec.
 Import ListNotations.
 
 (** BOM { a(x: "h\u00e9\n<e-acute>", y: <block string over four lines with CRLF, indentation and an
@@ -58,3 +58,55 @@ Proof. vm_compute. repeat split. Qed.
 (** hypothesis of C07_lex_invalid_utf8_rejected: a stray continuation byte inside a string *)
 Example invalid_utf8_hypothesis : utf8_decode [34; 128; 34]%N = None.
 Proof. vm_compute. reflexivity. Qed.
+
+(** C07_lex_error_positions on bad_text2 = "\x" #NUL (two errors, both inside the text, the second
+    later than the first) and on the unterminated string of bad_text (one error, at the LF) *)
+Example bad_text2_error_positions :
+  lex true bad_text2 = Done (match lex true bad_text2 with Done ts _ => ts | _ => [] end)
+                            (map (fun n => advance_pos (1, 1) n bad_cps2) [2; 6]%nat) /\
+  length bad_cps2 = 7%nat.
+Proof. vm_compute. repeat split. Qed.
+
+(** C07_lex_error_positions_bytes on an input that is NOT valid UTF-8: the four errors of
+    hostile_scans sit at rune boundaries 1, 4, 6 and 6 (the last two at the same place: the
+    exponent without digits and the NUL that follows) *)
+Example hostile_error_boundaries :
+  match lex true [34; 128; 34; 46; 49; 101; 0]%N with
+  | Done _ es => es = [(1, 2); (1, 5); (1, 7); (1, 7)]%Z
+  | OutOfFuel => False
+  end.
+Proof. vm_compute. repeat split. Qed.
+
+(** C07_api_call_order on a two-token source in mode 0: observers before the first Scan, repeated
+    observers, Scan twice after the end *)
+Definition api_src : bytes := [97; 32; 34; 98; 34]%N.   (* a "b" *)
+Example api_trace :
+  run false api_src [CLiteral; CPosition; CScan; CStringValue; CStringValue; CScan; CLiteral; CStringValue;
+                     CScan; CScan; CToken; CPosition; CLiteral; CStringValue; CErrors] =
+  [RBytes []; RPos 0 0; RBool true; RBytes [97%N]; RBytes [97%N]; RBool true; RBytes [34; 98; 34]%N; RBytes [98%N];
+   RBool false; RBool false; RTok INVALID; RPos 1 6; RBytes []; RBytes []; RErrs []] /\
+  end_pos api_src = (1, 6)%Z.
+Proof. vm_compute. repeat split. Qed.
+
+(** C07_lex_agrees_before_failure on bad_text = { a: QUOTE unterminated LF }: the grammar yields five
+    tokens ({ space a : space) and fails at the string, code point 5; all five are agreed, the
+    scanner's tokens begin with them and its only error (at the line feed, code point 18) is not
+    before them.  On bad_text2 = QUOTE \x QUOTE space # NUL the failure is at once (nothing agreed);
+    on a comment running into NUL the comment is left out of the agreed tokens. *)
+Example bad_text_agreed :
+  let stoks := fst (spec_lex bad_cps) in
+  let ag := agreed bad_cps stoks true in
+  length ag = 5%nat /\ agreed_count ag = 5%nat /\
+  match lex true bad_text with
+  | Done ts es => firstn 5 ts = map token_of_stoken ag /\ es = [advance_pos (1, 1) 18 bad_cps]
+  | OutOfFuel => False
+  end.
+Proof. vm_compute. repeat split. Qed.
+
+Example comment_not_agreed :
+  let cps := [97; 32; 35; 98; 0; 99]%N in       (* a space # b NUL c *)
+  match spec_lex cps with
+  | (stoks, EndError RNonSource 4 _ _) => length stoks = 3%nat /\ agreed_count (agreed cps stoks true) = 2%nat
+  | _ => False
+  end.
+Proof. vm_compute. repeat split. Qed.
